@@ -42,6 +42,8 @@ DEFAULT_CFG = {
     "hass_is_global": False,
     "env_seed": 0,
     "extra_conf": {},
+    "initial_states": None,
+    "fire_started": True,
 }
 
 
@@ -508,6 +510,8 @@ class World:
                 Function.functions["sim.get"] = self._native
 
                 self._bus_unsub = hass.bus.async_listen("*", self._on_bus_event)  # MATCH_ALL
+                for ent, (sval, attrs) in sorted((self.cfg.get("initial_states") or {}).items()):
+                    hass.states.async_set(ent, sval, attrs or {})
                 conf = {"pyscript": self.pyscript_conf()}
                 ok = await async_setup_component(hass, "pyscript", conf)
                 if not ok:
@@ -574,6 +578,7 @@ class World:
             return
         rec = {
             "vt": self.loop.vt,
+            "iter": self.loop.iterations,
             "t": self.vts(),
             "type": etype,
             "data": event.data,
